@@ -46,7 +46,10 @@ def _one(m, print):
         if os.path.exists("/repo/spsdk/__version__.py"):  # generated, untracked file of the real tree
             shutil.copy("/repo/spsdk/__version__.py", os.path.join(d, "spsdk", "__version__.py"))
         if "patch" in m:
-            subprocess.run(["git", "-C", d, "apply", m["patch"]], check=True, capture_output=True)
+            ap_ = subprocess.run(["git", "-C", d, "apply", m["patch"]], capture_output=True)
+            if ap_.returncode:
+                print(f"{m['id']}: patch does not apply to HEAD - SKIPPED")
+                return {"verdict": "patch-does-not-apply"}
         else:
             p = os.path.join(d, m["file"])
             src = open(p).read()
@@ -88,11 +91,11 @@ with ThreadPoolExecutor(max_workers=a.workers) as ex:
         print("\n".join(out), flush=True)
         res.append((mid, r["verdict"]))
         detail[mid] = r
-if a.save:
-    rp = os.path.join(VERIF, "selftest", "results.json")
-    old = json.load(open(rp)) if os.path.exists(rp) else {}
-    old.update(detail)
-    json.dump(old, open(rp, "w"), indent=1, sort_keys=True)
+        if a.save:  # after every item, so that an interrupted run keeps what it has
+            rp = os.path.join(VERIF, "selftest", "results.json")
+            old = json.load(open(rp)) if os.path.exists(rp) else {}
+            old.update(detail)
+            json.dump(old, open(rp, "w"), indent=1, sort_keys=True)
 k = sum(1 for _, v in res if v == "killed")
 print(f"mutants killed {k}/{len(res)}")
 sys.exit(0 if k == len(res) else 1)
